@@ -37,8 +37,10 @@ LongPre(n) == [kind |-> "longpre", n |-> n]     \* n filler bytes followed by th
 
 Asc(s) == s      \* texts are sequences of code points already
 
+\* the text of a value in column v: an INT, or (table variant "vreal": v REAL) a REAL written with two decimals
+VText(v) == IF v.t = "real" THEN TextOf(v) ELSE IntTextB(v)
 LineText(l) ==
-  CASE l.kind = "kv" -> <<107, 61>> \o (IF IsNull(l.k) THEN <<>> ELSE l.k.s) \o <<32, 118, 61>> \o (IF IsNull(l.v) THEN <<>> ELSE IntTextB(l.v))
+  CASE l.kind = "kv" -> <<107, 61>> \o (IF IsNull(l.k) THEN <<>> ELSE l.k.s) \o <<32, 118, 61>> \o (IF IsNull(l.v) THEN <<>> ELSE VText(l.v))
     [] l.kind = "garbage" -> <<35, 35, 35>>
     [] l.kind = "empty" -> <<>>
     [] l.kind = "near" -> <<107, 61, 97, 32, 118, 49>>            \* "k=a v1": one character short of a match
@@ -47,7 +49,7 @@ LineText(l) ==
 
 \* the row a table variant extracts: <<admitted, k, v>>
 \*   "plain": both nullable;  "knn": k NOT NULL;  "vdef": v INT DEFAULT 7;  "bothnn": k NOT NULL and v NOT NULL;
-\*   "anch": the pattern is anchored at both ends of the line (^...$)
+\*   "anch": the pattern is anchored at both ends of the line (^...$);  "vreal": v is a REAL column (lines carry REAL values)
 RowOf(tdef, l) ==
   LET k == IF l.kind = "kv" THEN l.k ELSE IF l.kind = "longpre" /\ tdef # "anch" THEN TextV(<<97>>) ELSE Null
       v0 == IF l.kind = "kv" THEN l.v ELSE IF l.kind = "longpre" /\ tdef # "anch" THEN IntV(1) ELSE Null
